@@ -94,6 +94,10 @@ type GenOpts struct {
 	ValueFor func(rng *Rand, g uint16, num byte) (v uint64, ok bool)
 	// SizeFor overrides the definition size of a field (ok=false: default).
 	SizeFor func(rng *Rand, g uint16, num byte) (size byte, ok bool)
+	// RepeatPrev: chance in 100 that a data record repeats the previous record of its slot byte
+	// for byte, except for a timestamp (field 253) a few seconds later: a device re-sending a
+	// message, values related across consecutive messages.
+	RepeatPrev int
 	// BigFileId: chance in 100 that the leading file_id carries several long unlisted fields
 	// (a first record of more than 512, sometimes more than 4096 bytes).
 	BigFileId int
@@ -377,6 +381,7 @@ type PlanGen struct {
 	defs   [16]*ref.Record
 	serial uint32
 	known  []uint16
+	last   [16]*ref.Record // last data record written on each slot under its current definition
 	dead   bool // the plan has ended (a record that must be rejected was emitted)
 }
 
@@ -493,6 +498,7 @@ func NewPlanGen(rng *Rand, o GenOpts) *PlanGen {
 	g.P.Records = append(g.P.Records, recs...)
 	d := recs[0]
 	g.defs[local] = &d
+	g.last[local] = nil
 	g.known = o.Mesgs
 	if g.known == nil {
 		g.known = KnownMesgs()
@@ -689,6 +695,7 @@ func (g *PlanGen) Define(local byte, m uint16, knownMsg bool) {
 	g.P.Records = append(g.P.Records, def)
 	d := def
 	g.defs[local] = &d
+	g.last[local] = nil
 }
 
 // DefineSimilar redefines slot local with a near-copy of its current definition.
@@ -749,6 +756,7 @@ func (g *PlanGen) DefineSimilar(local byte) {
 	g.P.Records = append(g.P.Records, def)
 	d := def
 	g.defs[local] = &d
+	g.last[local] = nil
 }
 
 // Data writes a data record on slot local (which must be defined).
@@ -807,6 +815,23 @@ func (g *PlanGen) Data(local byte) {
 	p := Profile()
 	rng := g.R
 	def := g.defs[local]
+	if g.O.RepeatPrev > 0 && g.last[local] != nil && def.Global != 0 && rng.Chance(g.O.RepeatPrev, 100) {
+		r := ref.Record{Local: local}
+		for _, d := range g.last[local].Data {
+			r.Data = append(r.Data, append([]byte{}, d...))
+		}
+		for i, fd := range def.Fields {
+			if fd.Num == 253 && fd.Size == 4 && p.Known[def.Global] && rng.Chance(3, 4) {
+				if v := ref.Get(r.Data[i], 4, def.Arch); v != 0xFFFFFFFF && v < 0xFFFF0000-32 && v >= 0x10000000 {
+					ref.Put(r.Data[i], v+1+uint64(rng.Intn(10)), 4, def.Arch)
+				}
+			}
+		}
+		g.P.Records = append(g.P.Records, r)
+		rc := r
+		g.last[local] = &rc
+		return
+	}
 	r := ref.Record{Local: local}
 	if local < 4 && g.O.Compressed > 0 && rng.Chance(g.O.Compressed, 100) {
 		r.Compressed = true
@@ -855,6 +880,8 @@ func (g *PlanGen) Data(local byte) {
 		g.O.PostData(rng, def, r.Data)
 	}
 	g.P.Records = append(g.P.Records, r)
+	rc := r
+	g.last[local] = &rc
 }
 
 // PickMesg draws a message number: mostly from the configured known set,
